@@ -12,7 +12,7 @@ R08.c  the writer walks pairs in pre-order (first before rest) behind the
 import os
 
 import runner
-from defs import Defs
+from defs import Defs, const_ints
 from flow import Flow
 from mir import callee_of, op_const, op_int, op_local, op_place, rv_operands
 from paths import err_assign_blocks, ok_assign_blocks
@@ -424,6 +424,73 @@ def run(tier="quick", replay=None):
                         f1, f2, marker), fn=f.path)
     if not found:
         R.viol("R08.c", "R08.c|anchor-lost|pair-arm", ITER_NEXT, "anchor lost: the Pair arm of the serialising iterator")
+
+    # ---------------- R08.e every emitted chunk comes from the checked table ------------------------
+    # R08.a proves the length-class table of atom_size_blob; that is only worth something if atom_size_blob is the ONLY
+    # routine that turns an atom into prefix bytes.  Every chunk the iterator yields must therefore be (1) the result of
+    # atom_size_blob, (2) a Blob payload replayed from the work stack, or (3) the constant pair marker.
+    ALLOC = ("exchange_malloc", "into_vec", "box_new", "Box::<T>::new", "write_via_move", "Vec::<T>::new", "from_elem",
+             "box_assume_init_into_vec_unsafe", "Box::<T>::new_uninit", "Box::<std::mem::MaybeUninit<T>, A>::write",
+             "write_box_via_move", "into_boxed_slice")
+    nchunks = 0
+    for f in it_fam:
+        fl = Flow(f)
+        for bb, i, s in f.stmts():
+            rv = s["rv"]
+            if not (rv["k"] == "agg" and rv.get("agg") == "adt" and rv.get("variant") == "Some" and "Option" in rv.get("adt", "")):
+                continue
+            if "Vec<u8>" not in f.local_ty(s["pl"]["l"]):
+                continue
+            l = op_local(rv["ops"][0])
+            if l is None:
+                continue
+            nchunks += 1
+            src = fl.back_pure([l])
+            callees = set()
+            for x in src:
+                for _, t in fl.call_defs.get(x, []):
+                    callees.add(callee_of(t) or t.get("callee") or "?")
+            replay = False
+            for b2, i2, s2 in f.stmts():
+                if fl.node(s2["pl"]) in src:
+                    for o in rv_operands(s2["rv"]):
+                        pp = op_place(o)
+                        if pp and any(isinstance(e, dict) and e.get("dc") == "Blob" for e in pp["p"]):
+                            replay = True
+            key = "R08.e|chunk-source|%s" % ("table" if WRITER in callees else "replay" if replay else
+                                              ",".join(sorted(c.rsplit("::", 1)[-1] for c in callees)) or "const")
+            if WRITER in callees:
+                R.ob("R08.e", key, "%s:%s" % (f.file, s.get("line", f.line)), "auto: chunk is the result of atom_size_blob", fn=f.path)
+            elif replay:
+                R.ob("R08.e", key, "%s:%s" % (f.file, s.get("line", f.line)), "auto: chunk replays a Blob payload from the work stack", fn=f.path)
+            else:
+                other = [c for c in callees if not any(a in c for a in ALLOC)]
+                ints = set(const_ints(fl.consts_into([l])))
+                R.check(not other and 0xFF in ints, "R08.e", key, "%s:%s" % (f.file, s.get("line", f.line)),
+                        "auto: chunk is the constant pair marker",
+                        "the serialising iterator yields a chunk produced by %s, not by atom_size_blob (whose length-class table "
+                        "R08.a checks), a Blob replay or the constant pair marker: a second, unchecked atom encoder" % (
+                            sorted(other) or "constants %s" % sorted(ints)), fn=f.path)
+    R.floor("R08.e", "chunks yielded by the serialising iterator", nchunks, 3)
+    # payloads pushed for replay must be the atom's own bytes
+    for f in it_fam:
+        fl = Flow(f)
+        for bb, i, s in f.stmts():
+            rv = s["rv"]
+            if rv["k"] == "agg" and rv.get("agg") == "adt" and rv.get("variant") == "Blob":
+                l = op_local(rv["ops"][0])
+                src = fl.back_pure([l]) if l is not None else set()
+                callees = set()
+                for x in src:
+                    for _, t in fl.call_defs.get(x, []):
+                        callees.add(callee_of(t) or "?")
+                from_atom = any(c.endswith("Allocator::atom") or c.endswith("Allocator::node") for c in callees)
+                PURE = ("Allocator::atom", "Allocator::node", "::as_ref", "::to_vec", "::clone", "::deref", "::borrow", "::into", "::from", "::to_owned")
+                other = [c for c in callees if not any(c.endswith(a) or a + ">" in c for a in PURE)]
+                R.check(from_atom and not other, "R08.e", "R08.e|payload-is-atom-bytes", "%s:%s" % (f.file, s.get("line", f.line)),
+                        "auto: the replayed payload is the allocator's atom bytes, copied",
+                        "the payload pushed for replay is not the unmodified atom bytes (from_atom=%s, through %s)" % (from_atom, sorted(other)),
+                        fn=f.path)
     return R.finalize()
 
 
